@@ -34,6 +34,7 @@ type lockViolation struct {
 var lockmon = struct {
 	mu       sync.Mutex
 	on       bool
+	light    bool // only held sets and recursion (no sites, order graph, wait-for cycles): cheap enough for fuzzing
 	held     map[int64][]heldLock
 	waiting  map[int64]*waitInfo
 	edges    map[string]map[string]string           // class -> class -> first site (reporting, evidence)
@@ -47,6 +48,7 @@ var lockmon = struct {
 func lockmonReset(on bool) {
 	lockmon.mu.Lock()
 	lockmon.on = on
+	lockmon.light = false
 	lockmon.held = map[int64][]heldLock{}
 	lockmon.waiting = map[int64]*waitInfo{}
 	lockmon.edges = map[string]map[string]string{}
@@ -195,6 +197,15 @@ func lockHook(op string, mu interface{}) {
 	switch op {
 	case "lock?", "rlock?":
 		write := op == "lock?"
+		if lockmon.light {
+			for _, h := range lockmon.held[g] {
+				if h.mu == mu {
+					lockmonAdd(lockViolation{Kind: "recursive-acquisition", Class: "?", Site: "-", Detail: fmt.Sprintf("goroutine %d requests a mutex it already holds", g)})
+				}
+			}
+			lockmon.waiting[g] = &waitInfo{mu: mu, write: write, class: "?", site: "-"}
+			return
+		}
 		class, site := lockSite()
 		class += mutexKind(mu)
 		// (i) re-acquisition of a mutex the goroutine already holds
@@ -321,4 +332,11 @@ func lockmonTakeKind(kind string) (out []lockViolation) {
 	}
 	lockmon.viol = keep
 	return
+}
+
+// lockmonLight switches the monitor to its cheap mode (after lockmonReset(true)).
+func lockmonLight() {
+	lockmon.mu.Lock()
+	lockmon.light = true
+	lockmon.mu.Unlock()
 }
